@@ -145,6 +145,7 @@ type FsOp struct {
 	Path2  string `json:"path2,omitempty"`
 	Data   string `json:"data,omitempty"`
 	Big    int    `json:"big,omitempty"` // > 0: the content is Data+"|" repeated up to this many bytes (sizes past every threshold)
+	Zero   bool   `json:"zero,omitempty"` // with Big: the content is Data followed by zero bytes up to Big bytes in all (all-zero blocks, a zero tail ending on a block boundary)
 	Chunks []int  `json:"chunks,omitempty"` // Writer: chunk lengths (0 allowed); Reader: buffer sizes
 	View   int    `json:"view,omitempty"`   // index into the views created so far (0 = root)
 	Ref    int    `json:"ref,omitempty"`    // pseudo-operations: which earlier result/buffer
@@ -154,6 +155,13 @@ type FsOp struct {
 func (o FsOp) Content() []byte {
 	if o.Big <= 0 {
 		return []byte(o.Data)
+	}
+	if o.Zero {
+		// Big bytes in all: the data, then zeros up to a whole number of 4096-byte blocks
+		if len(o.Data) >= o.Big {
+			return []byte(o.Data)
+		}
+		return append([]byte(o.Data), make([]byte, o.Big-len(o.Data))...)
 	}
 	unit := o.Data + "|"
 	return []byte(strings.Repeat(unit, o.Big/len(unit)+1)[:o.Big])
@@ -168,6 +176,9 @@ func (o FsOp) String() string {
 		s += fmt.Sprintf(",%q", o.Data)
 		if o.Big > 0 {
 			s += fmt.Sprintf("x%dB", o.Big)
+			if o.Zero {
+				s += "(zeros)"
+			}
 		}
 	}
 	return s + ")"
@@ -420,7 +431,21 @@ func writeChunked(w io.Writer, data []byte, chunks []int) error {
 		}
 		buf := scratch[:n]
 		copy(buf, data[:n])
-		k, err := w.Write(buf)
+		// the three standard ways of handing bytes to an io.Writer: Write, io.Copy (which uses
+		// ReadFrom when the writer offers it) and io.WriteString (WriteString when offered)
+		var k int
+		var err error
+		switch i % 3 {
+		case 1:
+			var k64 int64
+			// the source must not offer WriteTo (io.Copy would prefer it over the writer's ReadFrom)
+			k64, err = io.Copy(w, struct{ io.Reader }{bytes.NewReader(buf)})
+			k = int(k64)
+		case 2:
+			k, err = io.WriteString(w, string(buf))
+		default:
+			k, err = w.Write(buf)
+		}
 		for j := range buf {
 			buf[j] = 0xA5
 		}
@@ -680,4 +705,76 @@ func short(s string) string {
 		return fmt.Sprintf("%q...(%d bytes)", s[:60], len(s))
 	}
 	return fmt.Sprintf("%q", s)
+}
+
+
+// has reports whether the root has a directory with that name.
+func (m *ModelTree) has(name string) bool {
+	n := m.lookup([]string{name})
+	return n != nil && n.dir
+}
+
+// WideSpec: a directory "w" with many entries (past the thresholds at which containers grow,
+// shrink or switch algorithm), optionally mostly emptied again. Names n000, n001, ...
+type WideSpec struct {
+	N      int    `json:"n"`
+	Remove int    `json:"remove,omitempty"` // how many of them are removed again, in a seeded order
+	Seed   uint64 `json:"seed,omitempty"`
+}
+
+func genWide(r *Rand) *WideSpec {
+	w := &WideSpec{N: r.Pick(65, 70, 100, 129, 140), Seed: r.Uint64()}
+	if r.Chance(2, 3) {
+		w.Remove = w.N - r.Pick(1, 5, 20, 32, 33)
+	}
+	return w
+}
+
+func wideName(i int) string { return fmt.Sprintf("w/n%03d", i) }
+
+// Apply creates (and partly removes) the entries through fs and keeps m in step. fs may be
+// nil (generator side). Returns the first refusal.
+func (w *WideSpec) Apply(fs filesystem.Filespace, m *ModelTree, removeThrough filesystem.Filespace) error {
+	do := func(target filesystem.Filespace, op FsOp) error {
+		exp := m.Expectation(nil, op)
+		if target != nil {
+			if r := RunFsOp(target, op); r.Err != nil || r.Panic != "" {
+				return fmt.Errorf("%s: err=%v panic=%s", op, r.Err, r.Panic)
+			}
+		}
+		if exp.Outcome == MustOK && exp.apply != nil {
+			exp.apply()
+		}
+		return nil
+	}
+	// created in a seeded order, not by name: a listing need not come back sorted
+	create := make([]int, w.N)
+	for i := range create {
+		create[i] = i
+	}
+	cr := NewRand(w.Seed ^ 0x9e3779b97f4a7c15)
+	for i := len(create) - 1; i > 0; i-- {
+		j := cr.Intn(i + 1)
+		create[i], create[j] = create[j], create[i]
+	}
+	for _, i := range create {
+		if err := do(fs, FsOp{Kind: "WriteFile", Path: wideName(i), Data: fmt.Sprintf("w%03d", i)}); err != nil {
+			return err
+		}
+	}
+	order := make([]int, w.N)
+	for i := range order {
+		order[i] = i
+	}
+	rr := NewRand(w.Seed)
+	for i := len(order) - 1; i > 0; i-- {
+		j := rr.Intn(i + 1)
+		order[i], order[j] = order[j], order[i]
+	}
+	for k := 0; k < w.Remove && k < w.N; k++ {
+		if err := do(removeThrough, FsOp{Kind: "Remove", Path: wideName(order[k])}); err != nil {
+			return err
+		}
+	}
+	return nil
 }
